@@ -18,8 +18,9 @@ What is NOT proved (rests on the judge of harness/checks/C01.py, which runs the 
 parser on every output): the lexical layer for all trees (`pretty_relexes`) and the grammar layer.
 -/
 import CalmVerif.Proofs.RoundTripFuel
+import CalmVerif.Proofs.RoundTripSafePretty
 namespace CalmVerif.Props.C01
-open CalmVerif CalmVerif.Unparse
+open CalmVerif CalmVerif.Unparse CalmVerif.TokenAdj
 
 /-- the text `pretty_print(tree, indent_str=indent)` returns, or the exception -/
 def prettyText (indent : Option String) (tree : Val) : Except Err String :=
@@ -119,5 +120,55 @@ set_option maxRecDepth 100000 in
 /-- negation of the round trip on the witness: the member access on the integer literal `1` prints as `1.x;` — the
 characters of the number token `1.` followed by an identifier, which every ES5 lexer rejects (7.8.3) -/
 theorem kf01_witness : prettyText (some "  ") kf01 = .ok "1.x;\n" := printsText_spec (by decide)
+
+/-! ### (a) lexical layer, parts (1)–(3): token classes, first / last certificates, the follow relation
+
+`Model/TokenAdj.lean`: `classify` / `sig` (class and boundary signature of a fragment text), `Sym` (token signature
+or layout marker), the slot typing `es5Slot` of ES5 trees with `wfVal` (a tree respects it), the abstract
+interpretation `absRules` of a definition, `certPretty` (first / last symbol sets per node kind, computed by fixpoint
+iteration over Gen.Defs × Gen.Rules.rs_indent), `followPretty` (all pairs of symbols that can be adjacent). -/
+
+/-- (1) `classify` agrees with the lexer's tables: every fixed-text token of the lexer is its own punctuator class,
+every reserved word is a keyword; sample spellings of the other classes -/
+theorem token_classes_consistent :
+    (punctuators.all fun p => classify p == .punct p) = true ∧
+    (reservedWords.all fun w => classify w == .keyword) = true ∧
+    classify "a$" = .word ∧ classify "1" = .decInt ∧ classify "0" = .decInt ∧ classify "1." = .numDot ∧
+    classify ".5" = .number ∧ classify "1e3" = .number ∧ classify "0x1" = .number ∧ classify "'a'" = .string ∧
+    classify "/re/g" = .regex ∧ classify "// c" = .comment ∧ classify "/* c */" = .comment ∧ classify ",," = .punct "," ∧
+    sig "a\u0300" = .word 0 2 ∧ sig "/re/g" = .regex 0 ∧ sig "/re/" = .regex 3 := by decide +kernel
+
+/-- (2) D `first_last_closed`: the certificates are closed under the definitions: the summary (nullable, first
+symbols, last symbols) of every definition of Gen.Defs, computed under the certificates and the slot typing, is below
+the certificate of its kind, and no rule or slot is unsupported.  Kernel decision; breaks when a definition, the
+`indent` rule set or a slot type changes. -/
+theorem first_last_closed_pretty : closedCert cxPretty Gen.Defs.definitions = true := certPretty_closed
+
+/-- (2)+(3) T `first_last_sound` / `adjacent_sound`.  For EVERY tree that respects the slot typing (`wfVal`), every
+indent string: the chunk stream the pretty printer's walk yields, abstracted to symbols (`syms`: signature of each
+token fragment, marker of each layout chunk), is described by the certificate of the root's kind — it is empty only
+if the certificate is nullable, its first symbol is in the certificate's first set, its last symbol in the last set —
+and every two consecutive symbols are in the follow relation `followPretty`.
+(Induction on the walk, Proofs/RoundTripTyped*.lean.) -/
+theorem pretty_stream_typed (indent : Option String) (k : String) (as : List (String × Val))
+    (hw : wfVal cxPretty (.node k as) = true) (cs : List Chunk)
+    (h : walkChunks (prettyCfg indent) (.node k as) () = .ok (cs, ())) :
+    ∃ a, certOf cxPretty k = some a ∧ InLang followPretty a (syms (prettyCfg indent).hd cs) :=
+  walkChunks_typed (prettyTyped indent certPretty) followPretty followPretty_closed k as hw () cs () h
+
+/-- (4)+(5), table level, partial: `directSafe a b` = token `a` printed directly before token `b` still lexes as
+`a` then `b` under longest match (no identifier / keyword / number glued, no punctuator extended, no `//` or `/*`
+formed, no regular-expression flag absorbed, no `.` after an integer).  Every pair of TOKEN signatures in the follow
+relation — i.e. every two tokens the pretty printer can print with nothing between them — is `directSafe`, except
+KF-01 (`kf01Pair`: decimal integer before `.`) and two artefacts of the abstraction (`artefactPair`).
+NOT proved: the link of `directSafe` to the lexer models, and the pairs separated by layout markers. -/
+theorem direct_adjacent_safe_pretty_partial : directOK followPretty = true := direct_safe_pretty
+
+/-- non-vacuity: the witness of KF-01 and `{ a; }` respect the slot typing; KF-01's pair is in the exclusion -/
+example : wfVal cxPretty kf01 = true ∧ wfVal cxPretty withoutPos = true ∧ wfVal cxPretty withPos = true := by
+  decide +kernel
+example : directSafe .decInt (.lit ".") = false ∧ directSafe (.word 0 0) (.lit ".") = true ∧
+    directSafe (.lit "+") (.lit "+") = false ∧ directSafe (.lit "/") (.regex 3) = false ∧
+    directSafe (.regex 3) (.lit "in") = false ∧ directSafe (.lit ")") (.lit "{") = true := by decide +kernel
 
 end CalmVerif.Props.C01
